@@ -42,7 +42,7 @@ HandlerBusy == \E r \in DOMAIN req[B] :
 AtRest == lst[B] = "up" /\ inq[B] = <<>> /\ ~HandlerBusy /\ HB \notin wr[B]
 
 EnvSteps == Cardinality({i \in DOMAIN hist : hist[i].e \in {"ans", "fwd", "snd", "drop", "tick"}})
-Budget == EnvSteps < MaxEnv
+Budget == ~cancelled /\ EnvSteps < MaxEnv
 LastIsFwd == hist # <<>> /\ hist[Len(hist)].e = "fwd"
 Timing(q) == IF q THEN AtRest ELSE LastIsFwd
 MoreConns == Len(conns[B]) < MaxConn
@@ -65,7 +65,7 @@ GenNext ==
   \/ LRead(B) /\ UNCHANGED hist
   \/ \E r \in 1..MaxReq : (LDial(B, r) \/ LWriteBegin(B, r) \/ LWriteEnd(B, r)) /\ UNCHANGED hist
   \/ Budget /\ AtRest /\ LTickBegin(B) /\ UNCHANGED hist
-  \/ LTickEnd(B) /\ Log([e |-> "tick"])
+  \/ LTickEnd(B) /\ (IF TickDelivered(B) /\ hbc[B] = Cur(B) /\ ~cancelled THEN Log([e |-> "tick"]) ELSE UNCHANGED hist)
   \/ \E q \in BOOLEAN : (q => AtRest) /\ EnvCancel /\ Log([e |-> "cancel", q |-> q])
   \/ LStop(B) /\ UNCHANGED hist
 
